@@ -262,6 +262,8 @@ def import_real():
     os.environ.setdefault("PYMODES_VERIF", "1")
     import io
     import contextlib
+    import warnings
+    warnings.simplefilter("ignore")
     with contextlib.redirect_stdout(io.StringIO()):
         import pyModeS  # noqa
     assert os.path.realpath(pyModeS.__file__).startswith(os.path.realpath(src)), pyModeS.__file__
